@@ -1,7 +1,7 @@
 (* The threshold functions of the control layer meet their order-statistic specifications:
    kth_largest k l is an element with at least k values at or above it and fewer than k strictly above (= sorted(l)[-k]);
    min_above r l is the smallest value strictly above rank r. *)
-From Coq Require Import List Arith ZArith Bool Lia.
+From Coq Require Import List Arith ZArith Bool Lia Permutation Sorted.
 Import ListNotations.
 Require Import NV.Base NV.Shell2 NV.Shell2Ctl.
 
@@ -50,48 +50,30 @@ Proof. unfold Shell2Ctl.min_above. apply (min_above_gen r l [] None). intros x [
 (* ---- kth_largest ---- *)
 Definition Kth (k : nat) (l : list vid) (v : vid) : Prop :=
   In v l /\ k <= count_ge (vrank v) l /\ count_gt (vrank v) l < k.
-(* best so far = the maximal-rank element of the prefix with at least k values (of the whole list) at or above it *)
-Definition MaxOk (k : nat) (l pre : list vid) (o : option vid) : Prop :=
-  match o with
-  | Some b => In b pre /\ k <= count_ge (vrank b) l /\ forall x, In x pre -> k <= count_ge (vrank x) l -> (vrank x <= vrank b)%Z
-  | None => forall x, In x pre -> count_ge (vrank x) l < k
-  end.
-Lemma kth_gen k l : forall rest pre best, MaxOk k l pre best ->
-  MaxOk k l (pre ++ rest) (fold_left (fun best v => if Nat.leb k (count_ge (vrank v) l)
-     then match best with Some b => if Z.ltb (vrank b) (vrank v) then Some v else best | None => Some v end else best) rest best).
-Proof.
-  induction rest as [|x rest IH]; intros pre best H; cbn [fold_left]; [now rewrite app_nil_r|].
-  replace (pre ++ x :: rest) with ((pre ++ [x]) ++ rest) by (now rewrite <- app_assoc). apply IH.
-  destruct (Nat.leb_spec k (count_ge (vrank x) l)) as [Hx|Hx].
-  - destruct best as [b|]; cbn [MaxOk] in *.
-    + destruct H as (Hin & Hk & Hmax). destruct (Z.ltb_spec (vrank b) (vrank x)) as [Hlt|Hge].
-      * split; [apply in_or_app; right; now left|]. split; [exact Hx|]. intros y Hy Hky. apply in_app_or in Hy. destruct Hy as [Hy|[->|[]]]; [|lia].
-        specialize (Hmax y Hy Hky). lia.
-      * split; [apply in_or_app; now left|]. split; [exact Hk|]. intros y Hy Hky. apply in_app_or in Hy. destruct Hy as [Hy|[->|[]]]; [auto|lia].
-    + split; [apply in_or_app; right; now left|]. split; [exact Hx|]. intros y Hy Hky. apply in_app_or in Hy. destruct Hy as [Hy|[->|[]]]; [|lia].
-      specialize (H y Hy). lia.
-  - destruct best as [b|]; cbn [MaxOk] in *.
-    + destruct H as (Hin & Hk & Hmax). split; [apply in_or_app; now left|]. split; [exact Hk|].
-      intros y Hy Hky. apply in_app_or in Hy. destruct Hy as [Hy|[->|[]]]; [auto|lia].
-    + intros y Hy. apply in_app_or in Hy. destruct Hy as [Hy|[->|[]]]; [auto|lia].
-Qed.
 
-(* the element of minimal rank has the whole list at or above it *)
-Lemma min_elem (l : list vid) : l <> [] -> exists m, In m l /\ forall x, In x l -> (vrank m <= vrank x)%Z.
+(* counts over (rank, id) pairs, invariant under permutation *)
+Definition pge (r : Z) (S : list (Z * vid)) : nat := length (filter (fun q => Z.leb r (fst q)) S).
+Definition pgt (r : Z) (S : list (Z * vid)) : nat := length (filter (fun q => Z.ltb r (fst q)) S).
+Lemma filter_length_perm {A} (f : A -> bool) (a b : list A) : Permutation a b -> length (filter f a) = length (filter f b).
+Proof. induction 1; simpl; auto; try (destruct (f x); simpl; congruence); [destruct (f x), (f y); reflexivity|congruence]. Qed.
+Lemma count_ge_pairs r l : count_ge r l = pge r (map (fun v => (vrank v, v)) l).
+Proof. unfold Shell2Ctl.count_ge, pge. induction l as [|x l IH]; simpl; auto. destruct (Z.leb r (vrank x)); simpl; congruence. Qed.
+Lemma count_gt_pairs r l : count_gt r l = pgt r (map (fun v => (vrank v, v)) l).
+Proof. unfold Shell2Ctl.count_gt, pgt. induction l as [|x l IH]; simpl; auto. destruct (Z.ltb r (vrank x)); simpl; congruence. Qed.
+Lemma filter_app_length {A} (f : A -> bool) a b : length (filter f (a ++ b)) = length (filter f a) + length (filter f b).
+Proof. induction a as [|x a IH]; simpl; auto. destruct (f x); simpl; lia. Qed.
+Lemma filter_all {A} (f : A -> bool) a : (forall x, In x a -> f x = true) -> length (filter f a) = length a.
+Proof. induction a as [|x a IH]; intros H; simpl; auto. rewrite (H x (or_introl eq_refl)). simpl. rewrite IH; auto. intros; apply H; now right. Qed.
+Lemma filter_none {A} (f : A -> bool) a : (forall x, In x a -> f x = false) -> length (filter f a) = 0.
+Proof. induction a as [|x a IH]; intros H; simpl; auto. rewrite (H x (or_introl eq_refl)). apply IH. intros; apply H; now right. Qed.
+Lemma filter_le_length {A} (f : A -> bool) a : length (filter f a) <= length a.
+Proof. induction a as [|x a IH]; simpl; [lia|]. destruct (f x); simpl; lia. Qed.
+(* in a list sorted for a transitive relation every element of a prefix is related to every element after it *)
+Lemma sorted_app {A} (R : A -> A -> Prop) : forall a b, StronglySorted R (a ++ b) -> forall x y, In x a -> In y b -> R x y.
 Proof.
-  induction l as [|a l IH]; [congruence|]. intros _. destruct l as [|b l'].
-  - exists a. split; [now left|]. intros x [->|[]]. lia.
-  - destruct IH as (m & Hm & Hmin); [congruence|]. destruct (Z.leb_spec (vrank a) (vrank m)).
-    + exists a. split; [now left|]. intros x [->|Hx]; [lia|]. specialize (Hmin x Hx). lia.
-    + exists m. split; [now right|]. intros x [->|Hx]; [lia|auto].
+  induction a as [|z a IH]; intros b H x y Hx Hy; [contradiction|]. simpl in H. inversion H as [|? ? Hs Hf]; subst.
+  destruct Hx as [->|Hx]; [|eapply IH; eauto]. rewrite Forall_forall in Hf. apply Hf. apply in_or_app. now right.
 Qed.
-Lemma count_ge_all r l : (forall x, In x l -> (r <= vrank x)%Z) -> count_ge r l = length l.
-Proof.
-  unfold Shell2Ctl.count_ge. induction l as [|a l IH]; intros H; simpl; auto.
-  destruct (Z.leb_spec r (vrank a)) as [_|Hlt]; [simpl; rewrite IH; auto; intros; apply H; now right|].
-  specialize (H a (or_introl eq_refl)). lia.
-Qed.
-(* values strictly above r are exactly the values at or above the smallest value above r *)
 Lemma count_gt_as_ge r l w : MinAbove r l (Some w) -> count_gt r l = count_ge (vrank w) l.
 Proof.
   intros (Hin & Hr & Hmin). unfold Shell2Ctl.count_gt, Shell2Ctl.count_ge. clear Hin.
@@ -106,25 +88,40 @@ Proof.
   cbn [MinAbove]. unfold Shell2Ctl.count_gt. induction l as [|a l IH]; intros H; simpl; auto.
   destruct (Z.ltb_spec r (vrank a)) as [Ha|Ha]; [specialize (H a (or_introl eq_refl)); lia|]. apply IH. intros; apply H; now right.
 Qed.
-
-Theorem kth_largest_spec k l : 1 <= k <= length l -> exists v, kth_largest k l = Some v /\ Kth k l v.
-Proof.
-  intros Hk. pose proof (kth_gen k l l [] None) as G. cbn [app] in G. specialize (G (fun x (H : In x []) => match H with end)).
-  fold (kth_largest k l) in G.
-  destruct (kth_largest k l) as [v|] eqn:E.
-  - exists v. split; [reflexivity|]. destruct G as (Hin & Hge & Hmax). split; [exact Hin|]. split; [exact Hge|].
-    pose proof (min_above_spec (vrank v) l) as M. destruct (min_above (vrank v) l) as [w|] eqn:Ew.
-    + rewrite (count_gt_as_ge _ _ _ M). destruct M as (Hw & Hr & _).
-      destruct (Nat.leb_spec k (count_ge (vrank w) l)) as [Hc|Hc]; [|exact Hc]. specialize (Hmax w Hw Hc). lia.
-    + rewrite (count_gt_none _ _ M). lia.
-  - exfalso. cbn [MaxOk] in G. destruct (min_elem l) as (m & Hm & Hmin); [destruct l; [simpl in Hk; lia|congruence]|].
-    specialize (G m Hm). rewrite count_ge_all in G by auto. lia.
-Qed.
 Lemma count_ge_le_gt a b l : (a < b)%Z -> count_ge b l <= count_gt a l.
 Proof.
   intros Hab. unfold Shell2Ctl.count_ge, Shell2Ctl.count_gt. induction l as [|x l' IH]; simpl; [lia|].
   destruct (Z.leb_spec b (vrank x)), (Z.ltb_spec a (vrank x)); simpl; lia.
 Qed.
+
+Theorem kth_largest_spec k l : 1 <= k <= length l -> exists v, kth_largest k l = Some v /\ Kth k l v.
+Proof.
+  intros Hk. destruct k as [|k']; [lia|]. unfold Shell2Ctl.kth_largest.
+  set (L := map (fun v => (vrank v, v)) l). set (Srt := RankSort.sort L).
+  assert (PS : Permutation L Srt) by apply RankSort.Permuted_sort.
+  assert (LS : length Srt = length l) by (rewrite <- (Permutation_length PS); unfold L; apply map_length).
+  assert (SS : StronglySorted (fun a b => is_true (RankDesc.leb a b)) Srt).
+  { apply RankSort.StronglySorted_sort. intros a b c Hab Hbc. unfold is_true, RankDesc.leb in *. apply Z.leb_le in Hab, Hbc. apply Z.leb_le. lia. }
+  destruct (nth_error Srt k') as [p|] eqn:Ep; [|apply nth_error_None in Ep; lia].
+  destruct (nth_error_split Srt k' Ep) as (S1 & S2 & ES & L1).
+  assert (Hp : In p L) by (apply (Permutation_in _ (Permutation_sym PS)); rewrite ES; apply in_or_app; right; now left).
+  unfold L in Hp. apply in_map_iff in Hp. destruct Hp as (v & Hv & Hin). subst p. cbn [option_map snd].
+  exists v. split; [reflexivity|]. split; [exact Hin|].
+  rewrite count_ge_pairs, count_gt_pairs. fold L. unfold pge, pgt.
+  rewrite (filter_length_perm _ _ _ PS), (filter_length_perm (fun q => Z.ltb (vrank v) (fst q)) _ _ PS). rewrite ES in *.
+  assert (B1 : forall x, In x S1 -> (vrank v <= fst x)%Z).
+  { intros x Hx. pose proof (sorted_app _ S1 ((vrank v, v) :: S2) SS x (vrank v, v) Hx (or_introl eq_refl)) as H. unfold is_true, RankDesc.leb in H. now apply Z.leb_le in H. }
+  assert (B2 : forall y, In y S2 -> (fst y <= vrank v)%Z).
+  { intros y Hy. replace (S1 ++ (vrank v, v) :: S2) with ((S1 ++ [(vrank v, v)]) ++ S2) in SS by (rewrite <- app_assoc; reflexivity).
+    pose proof (sorted_app _ (S1 ++ [(vrank v, v)]) S2 SS (vrank v, v) y ltac:(apply in_or_app; right; now left) Hy) as H.
+    unfold is_true, RankDesc.leb in H. now apply Z.leb_le in H. }
+  rewrite !filter_app_length. cbn [filter fst length]. rewrite Z.leb_refl, Z.ltb_irrefl. cbn [length].
+  split.
+  - rewrite (filter_all _ S1) by (intros x Hx; apply Z.leb_le; auto). lia.
+  - rewrite (filter_none _ S2) by (intros y Hy; apply Z.ltb_ge; auto).
+    pose proof (filter_le_length (fun q => Z.ltb (vrank v) (fst q)) S1). lia.
+Qed.
+
 (* the specification determines the rank: any two elements meeting it have the same rank *)
 Theorem kth_unique k l v w : Kth k l v -> Kth k l w -> vrank v = vrank w.
 Proof.
